@@ -39,7 +39,7 @@ def pytest(tag):
     import xml.etree.ElementTree as ET
     global STABLE
     if STABLE is None:
-        STABLE = set(json.load(open("/root/.vp/BASELINE.json"))["stable_pass"]) if isinstance(json.load(open("/root/.vp/BASELINE.json"))["stable_pass"], list) else None
+        STABLE = set(json.load(open("/root/.vp/BASELINE.json"))["stable_pass"])
     jf = f"/tmp/cm_{pid}_{tag}.xml"
     c, o, e, t = run([PY, "-m", "pytest", "-q", "-p", "no:cacheprovider", "--timeout=900", "--continue-on-collection-errors", f"--junitxml={jf}"] + tests)
     ok_ = set()
@@ -76,7 +76,7 @@ try:
     c, o, e, t = run([PY, bug])
     ce, oe, ee, te = run([PY, equiv])
     pa, st, tt = pytest("A")
-    lostA = sorted(clean_pass - pa)
+    lostA = sorted((clean_pass & STABLE) - pa)   # only tests of the stable baseline count (ids with object addresses differ per run)
     res["patchA"] = {"demo_bug_exit": c, "demo_equiv_identical_to_clean": oe == clean_equiv and ce == 0, "tests_exit": 0 if not lostA else 1,
                      "tests": st, "tests_lost": lostA[:5], "tests_wall_s": tt}
     subprocess.check_call(["git", "-C", wt, "checkout", "--", "."])
@@ -85,11 +85,11 @@ try:
     comp = run([PY, "-m", "compileall", "-q", "fairlearn"])[0]
     c, o, e, t = run([PY, bug])
     pb, st, tt = pytest("B")
-    lostB = sorted(clean_pass - pb)
+    lostB = sorted((clean_pass & STABLE) - pb)
     res["patchB"] = {"compiles": comp == 0, "demo_bug_exit": c, "demo_bug_tail": (o + e)[-500:], "tests_exit": 0 if not lostB else 1,
-                     "tests": st, "tests_lost": lostB[:5], "tests_wall_s": tt, "tests_passing_on_clean_tree": len(clean_pass)}
+                     "tests": st, "tests_lost": lostB[:5], "tests_wall_s": tt, "stable_tests_passing_on_clean_tree": len(clean_pass & STABLE)}
     ok = (res["clean"]["demo_bug_exit"] == 0 and res["patchA"]["demo_bug_exit"] == 0 and res["patchA"]["demo_equiv_identical_to_clean"]
-          and res["patchA"]["tests_exit"] == 0 and len(clean_pass) > 0 and comp == 0 and res["patchB"]["demo_bug_exit"] != 0 and res["patchB"]["tests_exit"] == 0)
+          and res["patchA"]["tests_exit"] == 0 and len(clean_pass & STABLE) > 0 and comp == 0 and res["patchB"]["demo_bug_exit"] != 0 and res["patchB"]["tests_exit"] == 0)
     res["confirmed"] = bool(ok)
     res["tests_cmd"] = "pytest -q -p no:cacheprovider --timeout=900 --continue-on-collection-errors " + " ".join(tests) + "  (every test passing on the clean worktree must pass with the patch)"
     if ok:
